@@ -8,15 +8,19 @@ Case kinds (field 'kind'):
   seq     ONE request with a query string and an urlencoded body ('qpairs'/'bpairs' encoded with urlencode, or
           raw 'qs'/'body'); query / forms / params are read in the generated 'order' (with repeats) and every
           read is observed; the oracle also reads each accessor on a fresh request
+  frame   END TO END: the urlencoded body ('pairs' encoded with urlencode, or raw 'text') travels through a
+          fragmenting wsgi.input (props.common.FragStream, schedule 'sched') under Content-Length or chunked
+          framing ('data' = the bytes on the wire), with max_memfile_size 'buf' / max_body_size 'maxb' around
+          the body size; Ombott.__call__ runs a handler that reads request.forms
   prim    primitive-level comparison of lib/Utf8.v and lib/Pct.v with str.encode / bytes.decode /
           urllib.parse (field 'op')
 Strings are lists of code points everywhere (JSON-able even with lone surrogates)."""
 import io
 
-from props.common import enc_str, enc_list, Reader, environ
+from props.common import FragStream, enc_str, enc_list, Reader, environ
 
 ID = 'C18'
-COQ_MODEL = 'model.Qsl'
+COQ_MODEL = 'model.QslBody'
 COQ_CORR = 'corr_C18'
 N_QUICK = 4000
 N_THOROUGH = 20000
@@ -27,14 +31,18 @@ RULE = ('cases = corpus + random: (a) round trips: 0..6 pairs over an alphabet r
         'by urllib.parse.urlencode with quote_plus or quote(safe="") and parsed through Request.query, '
         'Request.forms (urlencoded body via a real environ), Request.params and parse_qsl directly; (b) raw strings '
         'with stray "%", "%zz", "%e9" (invalid UTF-8), "&&", "==", "=v", trailing separators, raw non-ASCII and lone '
-        'surrogates; (a2) ONE request with query string and urlencoded body (keys shared between both sides), '
+        'surrogates; (a3) END TO END: the urlencoded body (pairs or raw text) through a fragmenting wsgi.input '
+        'under Content-Length and chunked framing (random legal chunkings, extensions, trailers, bytes behind the '
+        'body) with max_memfile_size / max_body_size at size-1, size, size+1, via Ombott.__call__ and a handler '
+        'reading request.forms; (a2) ONE request with query string and urlencoded body (keys shared between both sides), '
         'query/forms/params read in a generated order with repeats, every read observed and compared with the '
         'grouping/merge and with a fresh request; (c) primitives: utf8 encode / strict decode / replace decode on boundary code points and '
         'malformed byte strings, quote / quote_plus / unquote / unquote_to_bytes / urlencode. thorough adds every '
         'raw string of length <= 5 over "a=&+%4" through parse_qsl and Request.query, and every byte string of length <= 3 '
         '(<= 4 behind a 4-byte lead) over the 19 boundary bytes of the UTF-8 decoder (exhaustive). '
         'non-trivial = round trip with >= 2 pairs containing a repeated key or a character outside [A-Za-z0-9], '
-        'or raw string containing "%" or at least two separators, or a read sequence on a request with both parts '
+        'or raw string containing "%" or at least two separators, or a framed body of >= 2 bytes that is chunked or '
+        'read under a fragmentation schedule, or a read sequence on a request with both parts '
         'in which query or forms is read after params, or a primitive case with a non-ASCII/malformed '
         'input; distinct by the full input')
 TRUSTED = ['modelled, not verified: CPython urllib.parse.unquote / _unquote_impl and the UTF-8 codec with '
@@ -92,6 +100,64 @@ def seq(qpairs, bpairs, order, spelling='plus'):
                 spelling=spelling, order=list(order))
 
 
+def chunk_encode(rng, payload, buf):
+    """a legal chunked encoding of payload (size lines within buf when buf >= 4), some with extensions / leading
+    zeros / upper-case hex, followed by a trailer section"""
+    out, i = b'', 0
+    while i < len(payload):
+        n = max(1, min(rng.choice([1, 2, 3, 5, 7, len(payload) - i]), len(payload) - i))
+        line = (b'%X' if rng.random() < 0.3 else b'%x') % n
+        if rng.random() < 0.2 and len(line) + 3 <= buf:
+            line = b'0' + line
+        if rng.random() < 0.2 and len(line) + 4 <= buf:
+            line += b';x'
+        out += line + b'\r\n' + payload[i:i + n] + b'\r\n'
+        i += n
+    return out + b'0\r\n' + rng.choice([b'\r\n', b'X-T: 1\r\n\r\n', b''])
+
+
+def frame(rng, text, buf, maxb, chunked, sched, pairs=None, spelling=None, cl=None, tail=b''):
+    text = bytes(text)
+    if chunked:
+        data, cl = chunk_encode(rng, text, buf), -1
+    else:
+        data, cl = text + tail, len(text) if cl is None else cl
+    c = dict(kind='frame', text=list(text), data=list(data), cl=cl, chunked=chunked, buf=buf, maxb=maxb,
+             sched=list(sched))
+    if pairs is not None:
+        c.update(pairs=pairs, spelling=spelling)
+    return c
+
+
+def pairs_text(pairs, spelling):
+    from urllib.parse import urlencode, quote
+    kw = {} if spelling == 'plus' else dict(safe='', quote_via=quote)
+    return urlencode([(T(k), T(v)) for k, v in pairs], **kw).encode('ascii')
+
+
+def frame_corpus():
+    import random
+    rng = random.Random(18)
+    pairs = [[S('id'), S('7')], [S('tag'), S('x y')], [S('tag'), S('é&=+%')]]
+    out = []
+    for spelling in ('plus', 'quote'):
+        text = pairs_text(pairs, spelling)
+        n = len(text)
+        for chunked in (False, True):
+            for buf, maxb in ((n, None), (n - 1, None), (n + 1, n), (n + 1, n - 1), (n, n), (4 * n, None)):
+                for sched in ([], [0] * (4 * n + 40), [2, 0, 6, 1]):
+                    out.append(frame(rng, text, buf, maxb, chunked, sched, pairs, spelling, tail=b'' if sched else b'XX'))
+    out.append(frame(rng, b'', 8, None, False, []))
+    out.append(frame(rng, b'', 8, None, True, [0] * 10))
+    out.append(frame(rng, b'a=%e9&=v&&b', 11, None, True, [1, 0, 2]))
+    out.append(frame(rng, b'a=1&b=2', 16, None, False, [0, 0], cl=5))              # declared length shorter
+    out.append(frame(rng, b'a=1&b=2', 16, None, False, [0, 0], cl=12))             # early EOF
+    c = frame(rng, b'a=1&b=2', 16, None, True, [])
+    c['data'] = list(b'7\r\na=1&b=2\r\n0')                                       # truncated last-chunk line
+    out.append(c)
+    return out
+
+
 ORDERS = [['params', 'query'], ['query', 'params', 'query'], ['forms', 'params', 'query', 'forms'],
           ['params', 'forms', 'query', 'params'], ['query', 'forms', 'params'], ['params', 'params', 'query', 'forms']]
 
@@ -121,7 +187,8 @@ def corpus():
             ['forms', 'params', 'query', 'forms']),
         seq([('a', '1')], [('b', '2')], ['query', 'params', 'query'], 'quote'),
         dict(kind='seq', qs=S('a=1&=x&a=%e9'), body=S('a=2&b&%zz'), order=['params', 'query', 'forms', 'params']),
-        rt([], 'plus', 'query'), rt([('a', '')], 'plus', 'direct'), rt([('a', ''), ('a', '')], 'quote', 'query'),
+        rt([], 'plus', 'query'), rt([('a', '')], 'plus', 'direct'),
+    ] + frame_corpus()[:8] + [ rt([('a', ''), ('a', '')], 'quote', 'query'),
         rt([(' ', ' '), ('+', '+'), ('%', '%'), ('&', '&'), ('=', '=')], 'plus', 'query'),
         rt([(' ', ' '), ('+', '+'), ('%', '%'), ('&', '&'), ('=', '=')], 'quote', 'direct'),
         rt([('%41', '%zz'), ('a+b', 'a b'), ('%2B', '+ +')], 'plus', 'forms'),
@@ -156,7 +223,7 @@ def corpus():
     out.append(prim('urlencode', [[S('a b'), S('c&d')], [S('é'), S('')], [S(''), S('=')]]))
     out.append(prim('urlencode_q', [[S('a b'), S('c&d')], [S('é'), S('+')]]))
     out.append(prim('urlencode', []))
-    return out
+    return out + frame_corpus()[8:]
 
 
 # --------------------------------------------------------------------------
@@ -217,7 +284,28 @@ def rand_bytes(rng):
 def gen(rng, n):
     for _ in range(n):
         r = rng.random()
-        if r < 0.12:
+        if r < 0.1:
+            if rng.random() < 0.75:
+                pool = [rand_text(rng, 1, 3) for _ in range(rng.randrange(1, 3))]
+                pairs = [[list(rng.choice(pool)), rand_text(rng, 0, 3)] for _ in range(rng.randrange(0, 4))]
+                spelling = rng.choice(['plus', 'quote'])
+                text = pairs_text(pairs, spelling)
+            else:
+                pairs, spelling = None, None
+                text = bytes(x for x in rand_raw(rng) if x < 256)
+            n = len(text)
+            buf = max(1, rng.choice([n - 1, n, n, n + 1, 2 * n + 3, 4, 7, 64]))
+            maxb = rng.choice([None, None, None, max(n - 1, 0), n, n + 1])
+            chunked = rng.random() < 0.5
+            k = rng.random()
+            sched = [] if k < 0.25 else [0] * (6 * n + 40) if k < 0.45 else \
+                [rng.choice([0, 0, 1, 2, 3, 7, 20]) for _ in range(rng.randrange(1, n + 8))]
+            cl = None
+            if not chunked and rng.random() < 0.1:
+                cl = max(0, n + rng.choice([-2, -1, 1, 3]))
+            yield frame(rng, text, buf, maxb, chunked, sched, pairs, spelling, cl=cl,
+                        tail=rng.choice([b'', b'', b'&z=9', b'\r\n']))
+        elif r < 0.2:
             order = list(rng.choice(ORDERS)) if rng.random() < 0.5 else \
                 [rng.choice(['query', 'forms', 'params']) for _ in range(rng.randrange(2, 6))]
             if rng.random() < 0.75:
@@ -227,7 +315,7 @@ def gen(rng, n):
                            bpairs=[[list(rng.choice(pool)), rand_text(rng, 0, 4)] for _ in range(rng.randrange(0, 5))])
             else:
                 yield dict(kind='seq', qs=rand_raw(rng), body=[x for x in rand_raw(rng) if x < 256], order=order)
-        elif r < 0.45:
+        elif r < 0.5:
             pool = [rand_text(rng, 1, 4) for _ in range(rng.randrange(1, 4))]
             pairs = [[list(rng.choice(pool)), rand_text(rng, 0, 5)] for _ in range(rng.randrange(0, 7))]
             yield dict(kind='rt', pairs=pairs, spelling=rng.choice(['plus', 'quote']),
@@ -387,6 +475,38 @@ def run_seq(case):
     return dict(status='ok', reads=reads, fresh=fresh)
 
 
+def run_frame(case):
+    from ombott import Ombott
+    app = Ombott(dict(max_memfile_size=case['buf'], max_body_size=case['maxb']))
+    seen = {}
+
+    def handler():
+        seen['items'] = dump_dict(app.request.forms)
+        return 'parsed'
+    app.route('/b', method='POST', callback=handler)
+    st = FragStream(case['data'], case['sched'])
+    env = environ('POST', '/b', **{'wsgi.input': st})
+    env['CONTENT_TYPE'] = 'application/x-www-form-urlencoded'
+    if case['chunked']:
+        env['HTTP_TRANSFER_ENCODING'] = 'chunked'
+    if case['cl'] >= 0:
+        env['CONTENT_LENGTH'] = str(case['cl'])
+    out = {}
+
+    def start_response(status, headers, exc_info=None):
+        out['status'] = status
+    try:
+        b''.join(app(env, start_response))
+    except Exception as e:
+        return dict(status='escaped_%s' % type(e).__name__)
+    code = int(out['status'].split()[0])
+    if env['wsgi.errors'].getvalue():
+        return dict(status='traceback_on_wsgi_errors', code=code)
+    if code == 200:
+        return dict(status='ok', items=seen.get('items'), pos=st.pos)
+    return dict(status='http_%d' % code, pos=st.pos)
+
+
 def project(obs, case):
     if case['kind'] == 'seq' and 'fresh' in obs:
         return dict(status=obs['status'], reads=obs['reads'])
@@ -398,6 +518,8 @@ def run_impl(case):
         return run_prim(case['op'], case['arg'])
     if case['kind'] == 'seq':
         return run_seq(case)
+    if case['kind'] == 'frame':
+        return run_frame(case)
     from ombott import Request
     from ombott.request_pkg.helpers import parse_qsl
     via, qs, body = case_strings(case)
@@ -427,6 +549,9 @@ def encode(case):
         if op in ('urlencode', 'urlencode_q'):
             return [PRIM_CODE[op]] + enc_list(arg, lambda kv: enc_str(kv[0]) + enc_str(kv[1]))
         return [PRIM_CODE[op]] + enc_str(arg)
+    if case['kind'] == 'frame':
+        return ([5, case['cl'], 1 if case['chunked'] else 0, case['buf'], 0 if case['maxb'] is None else 1,
+                 case['maxb'] or 0] + enc_str(case['data']) + enc_list(case['sched'], lambda k: [k]))
     if case['kind'] == 'seq':
         qs, body = seq_strings(case)
         return [4] + enc_str(S(qs)) + enc_str(body) + enc_list(case['order'], lambda a: [KIND_CODE[a]])
@@ -449,6 +574,13 @@ def decode(out, case):
         if q.int() == 0:
             return [k, ['s', q.str()]]
         return [k, ['l', q.list(lambda z: z.str())]]
+    if case['kind'] == 'frame':
+        tag = r.int()
+        if tag == 0:
+            return dict(status='ok', items=r.list(item), pos=r.int())
+        if tag == 1:
+            return dict(status='http_%d' % r.int(), pos=r.int())
+        return dict(status='model_tag_%d' % tag)
     if case['kind'] == 'seq':
         def one(q):
             tag = q.int()
@@ -491,6 +623,8 @@ def oracle(case, obs):
             if S(back) != arg:
                 return 'unquote(%s(s)) != s' % op
         return None
+    if case['kind'] == 'frame':
+        return oracle_frame(case, obs)
     if obs.get('status') != 'ok':
         return 'parsing raised %s' % obs.get('exc', obs)
     if case['kind'] == 'seq':
@@ -528,6 +662,52 @@ def merge(qitems, fitems):
     return out
 
 
+def chunk_lines_fit(data, buf):
+    """is data a complete chunked body whose size lines (incl. CRLF) fit the buffer"""
+    d, i = bytes(data), 0
+    while True:
+        j = d.find(b'\r\n', i)
+        if j < 0 or j + 2 - i > buf:
+            return False
+        try:
+            n = int(d[i:j].split(b';')[0], 16)
+        except ValueError:
+            return False
+        if n == 0:
+            return True
+        if d[j + 2 + n:j + 4 + n] != b'\r\n':
+            return False
+        i = j + 4 + n
+
+
+def oracle_frame(case, obs):
+    st = obs.get('status')
+    if st not in ('ok', 'http_413', 'http_400'):
+        return 'urlencoded body through the framing gave %s' % obs
+    text = bytes(case['text'])
+    n, buf, maxb = len(text), case['buf'], case['maxb']
+    legal = chunk_lines_fit(case['data'], buf) if case['chunked'] else case['cl'] == n
+    if not legal:
+        return None                       # truncated / mis-declared framing: C05 / C04 territory
+    if n > buf or (maxb is not None and n > maxb):
+        if st != 'http_413':
+            return 'body of %d bytes with max_memfile_size=%d max_body_size=%s answered %s, expected 413' % (n, buf, maxb, st)
+        return None
+    if st != 'ok':
+        return 'body of %d bytes within the limits (max_memfile_size=%d max_body_size=%s) answered %s' % (n, buf, maxb, st)
+    if case.get('pairs') is not None and all(k for k, _ in case['pairs']):
+        want = group([(T(k), T(v)) for k, v in case['pairs']])
+    else:                                 # raw text: what the same bytes give unfragmented, Content-Length, no limits
+        from ombott import Request
+        env = environ('POST', '/', body=text, CONTENT_TYPE='application/x-www-form-urlencoded')
+        env['CONTENT_LENGTH'] = str(n)
+        want = dump_dict(Request(env).forms)
+    if obs['items'] != want:
+        return ('forms through %s framing (sched %s, buf %d) = %s, expected %s'
+                % ('chunked' if case['chunked'] else 'Content-Length', case['sched'][:6], buf, short(obs['items']), short(want)))
+    return None
+
+
 def oracle_seq(case, obs):
     want = dict(obs['fresh'])          # what each accessor returns on a request of its own
     if 'qpairs' in case:
@@ -556,6 +736,8 @@ def nontrivial(case, obs):
     if case['kind'] == 'raw':
         q = case['qs'] + (case.get('body') or [])
         return 37 in q or sum(1 for c in q if c in (38, 61)) >= 2
+    if case['kind'] == 'frame':
+        return len(case['text']) >= 2 and (bool(case['sched']) or case['chunked'])
     if case['kind'] == 'seq':
         o = case['order']
         later = any(a in ('query', 'forms') and 'params' in o[:i] for i, a in enumerate(o))
@@ -578,6 +760,10 @@ def classify(case, obs):
         keys = [tuple(k) for k, _ in case['pairs']]
         return 'rt/%s/%s/%s' % (case['via'], case['spelling'],
                                 'repeated' if len(set(keys)) < len(keys) else 'distinct' if keys else 'empty')
+    if case['kind'] == 'frame':
+        n = len(case['text'])
+        return 'frame/%s/%s/%s/%s' % ('chunked' if case['chunked'] else 'cl', 'pairs' if case.get('pairs') is not None else 'raw',
+                                      'n<=buf' if n <= case['buf'] else 'n>buf', obs.get('status'))
     if case['kind'] == 'seq':
         shared = 'n/a'
         if 'qpairs' in case:
@@ -601,6 +787,12 @@ def shrink(case):
                 yield dict(case, pairs=ps[:i] + [[k, v[:j] + v[j + 1:]]] + ps[i + 1:])
         if case['via'] != 'direct':
             yield dict(case, via='direct')
+    elif case['kind'] == 'frame':
+        s = case['sched']
+        for i in range(len(s)):
+            yield dict(case, sched=s[:i] + s[i + 1:])
+        if s:
+            yield dict(case, sched=[])
     elif case['kind'] == 'seq':
         o = case['order']
         for i in range(len(o)):
@@ -641,7 +833,10 @@ MANIFEST = dict(
           'CPython on every run by a differential correspondence (extracted OCaml + vm_compute) at Request.query, '
           'Request.forms, Request.params, parse_qsl and at the primitives (str.encode, bytes.decode strict/replace, '
           'urllib.parse quote/quote_plus/unquote/unquote_to_bytes/urlencode) and on sequences of reads of '
-          'query/forms/params on ONE request in generated orders (C18_access_order_independent: no read depends '
+          'query/forms/params on ONE request in generated orders; C18_forms_through_framing composes the parser with the '
+          'Content-Length / chunked readers and the size limits (models of C04/C05/C13): through every fragmentation and '
+          'legal chunking forms = group(pairs) when the body fits max_memfile_size, 413 otherwise, tied by an end-to-end '
+          'correspondence through Ombott.__call__ (C18_access_order_independent: no read depends '
           'on what was read before), and an independent oracle (10-line '
           'grouping) finds the concrete failing input when a tie breaks.'),
     note=('Trusted: Coq kernel + vm_compute; extraction (ExtrOcamlBasic only); the Python harness; that the '
